@@ -118,6 +118,14 @@ Ltac norm_args :=
          end.
 Ltac eq_mod_ring := first [ reflexivity | ring | (unfold Rdiv; norm_args; first [reflexivity | ring]) ].
 
+(* two traces of the same formula: equal by conversion when the source spells the branches alike, and modulo
+   ring (after normalising the arguments of sqrt / sin / cos / inverses) when it does not *)
+Ltac head_of t := lazymatch t with ?f _ => head_of f | _ => t end.
+Ltac variant_eq :=
+  first [ reflexivity
+        | match goal with |- ?l = ?r => let f := head_of l in let g := head_of r in unfold f, g end;
+          cbv zeta; eq_mod_ring ].
+
 (* normalise x * x and x * x * x to powers (the code may write either) *)
 Ltac sq_norm :=
   repeat match goal with
